@@ -186,3 +186,201 @@ Example C12_fresh_enter_each :
   FreshExamples.exf_outs [Salsa.Cycle.Model.COGet (1, 2); Salsa.Cycle.Model.COGet (1, 0); Salsa.Cycle.Model.COGet (1, 1)]
     = [Salsa.Cycle.Model.COk 12; Salsa.Cycle.Model.COk 93; Salsa.Cycle.Model.COk 13].
 Proof. destruct FreshExamples.exf_enter_each as (H1 & H2 & H3 & _). now repeat split. Qed.
+
+(* ------------------------------------------------------------------------------------------
+   The claim (lock) discipline of the Cycle model — an invariant of EVERY run: all programs, all
+   strategies (Panic / Fixpoint / joining / FallbackImmediate, mixed), nested and overlapping
+   cycles, all histories, values and panics alike (stage 9; proofs in Cycle/LockInv.v, LockOps.v,
+   LockFetch.v, LockTop.v).  This is the part of the nested-heads analysis that is closed; the
+   value theorems for nested heads (C12_fresh_full_statement, C13_fresh_full_statement) are NOT
+   proved: they additionally need the owner-chain invariant of the transferred-lock table and the
+   completeness of cycle-head collection (a Tarjan-style argument), see the gap comment below.
+
+   [LK hl s]: the keys with a sync-table entry that is not flagged transferred are exactly the
+   keys of the (duplicate-free) list [hl] of open claim guards; the query stack only holds such
+   keys; an entry claimed a second time (claimed_twice) is not flagged transferred. *)
+From Salsa.Cycle Require LockInv LockOps LockFetch LockTop LockExamples.
+
+(* A fetch leaves exactly the claims and the query stack it found — whether it returns a value or
+   unwinds with any panic (every guard is released, every frame popped). *)
+Theorem C12_claims_balanced : forall (prog : qkey -> body) (strat : N -> Salsa.Cycle.Model.strategy)
+    (cinit : qkey -> val) (nodes n : nat) (q : qkey) (hl : list qkey) (s : Salsa.Cycle.Model.cdb),
+  LockInv.LK hl s ->
+  match Salsa.Cycle.Model.cfetch prog strat cinit nodes (Salsa.Cycle.Model.clevel prog strat cinit nodes n) q s with
+  | (s', Salsa.Cycle.Model.CFuel) => True
+  | (s', _) => LockInv.LK hl s' /\ Salsa.Cycle.Model.c_qstack s' = Salsa.Cycle.Model.c_qstack s
+  end.
+Proof.
+  intros prog strat cinit nodes n q hl s HL.
+  destruct (LockFetch.clevel_lk prog strat cinit nodes n) as [HF HM].
+  pose proof (LockFetch.cfetch_lk prog strat cinit _ HF HM nodes q hl _ s (conj HL eq_refl)) as H.
+  unfold LockInv.awp in H.
+  destruct (Salsa.Cycle.Model.cfetch prog strat cinit nodes (Salsa.Cycle.Model.clevel prog strat cinit nodes n) q s)
+    as [s' [r | p |]]; [exact H | exact H | exact I].
+Qed.
+Check C12_claims_balanced : forall (prog : qkey -> body) (strat : N -> Salsa.Cycle.Model.strategy)
+    (cinit : qkey -> val) (nodes n : nat) (q : qkey) (hl : list qkey) (s : Salsa.Cycle.Model.cdb),
+  LockInv.LK hl s ->
+  match Salsa.Cycle.Model.cfetch prog strat cinit nodes (Salsa.Cycle.Model.clevel prog strat cinit nodes n) q s with
+  | (s', Salsa.Cycle.Model.CFuel) => True
+  | (s', _) => LockInv.LK hl s' /\ Salsa.Cycle.Model.c_qstack s' = Salsa.Cycle.Model.c_qstack s
+  end.
+Print Assumptions C12_claims_balanced.
+
+(* Between two operations of any history nothing is claimed and the query stack is empty: every
+   remaining sync-table entry is flagged transferred and not claimed twice.  (Operations that run
+   out of the model's fuel are excluded: no guard runs then.) *)
+Theorem C12_lock_invariants_reachable : forall (prog : qkey -> body) (strat : N -> Salsa.Cycle.Model.strategy)
+    (cinit : qkey -> val) (nodes fuel : nat) (iv : ikey -> val) (idur : ikey -> dur)
+    (ops : list Salsa.Cycle.Model.cop),
+  let r := Salsa.Cycle.Model.crun_ops prog strat cinit nodes fuel (Salsa.Cycle.Model.cinit_db iv idur) ops in
+  Forall (fun o => o <> Salsa.Cycle.Model.CFuel) (snd r) ->
+  Salsa.Cycle.Model.c_qstack (fst r) = [] /\
+  forall q y, Salsa.Cycle.Model.c_sync (fst r) q = Some y ->
+    Salsa.Cycle.Model.sy_trans y = true /\ Salsa.Cycle.Model.sy_twice y = false.
+Proof.
+  intros prog strat cinit nodes fuel iv idur ops r Hall.
+  apply (proj1 (LockTop.idle_plain (fst r))).
+  apply (LockTop.idle_reachable prog strat cinit nodes fuel ops _ (LockTop.idle_init iv idur) Hall).
+Qed.
+Check C12_lock_invariants_reachable : forall (prog : qkey -> body) (strat : N -> Salsa.Cycle.Model.strategy)
+    (cinit : qkey -> val) (nodes fuel : nat) (iv : ikey -> val) (idur : ikey -> dur)
+    (ops : list Salsa.Cycle.Model.cop),
+  let r := Salsa.Cycle.Model.crun_ops prog strat cinit nodes fuel (Salsa.Cycle.Model.cinit_db iv idur) ops in
+  Forall (fun o => o <> Salsa.Cycle.Model.CFuel) (snd r) ->
+  Salsa.Cycle.Model.c_qstack (fst r) = [] /\
+  forall q y, Salsa.Cycle.Model.c_sync (fst r) q = Some y ->
+    Salsa.Cycle.Model.sy_trans y = true /\ Salsa.Cycle.Model.sy_twice y = false.
+Print Assumptions C12_lock_invariants_reachable.
+
+(* Under the invariant the sync table's own assertions cannot fire: claiming never panics (in
+   particular debug_assert!(!claimed_twice)), ... *)
+Theorem C12_try_claim_never_asserts : forall (q : qkey) (allow : bool) (hl : list qkey) (s : Salsa.Cycle.Model.cdb),
+  LockInv.LK hl s -> forall p, snd (Salsa.Cycle.Model.try_claim q allow s) <> Salsa.Cycle.Model.CPanic p.
+Proof. exact LockTop.try_claim_never_panics. Qed.
+Check C12_try_claim_never_asserts : forall (q : qkey) (allow : bool) (hl : list qkey) (s : Salsa.Cycle.Model.cdb),
+  LockInv.LK hl s -> forall p, snd (Salsa.Cycle.Model.try_claim q allow s) <> Salsa.Cycle.Model.CPanic p.
+Print Assumptions C12_try_claim_never_asserts.
+
+(* ... a re-entrant request is reported as a same-thread cycle exactly for the keys with an open
+   claim guard, ... *)
+Theorem C12_reentry_detected_exactly : forall (q : qkey) (allow : bool) (hl : list qkey) (s : Salsa.Cycle.Model.cdb),
+  LockInv.LK hl s ->
+  (snd (Salsa.Cycle.Model.try_claim q allow s) = Salsa.Cycle.Model.COk (Salsa.Cycle.Model.ClCycle false) <-> In q hl).
+Proof. exact LockTop.try_claim_cycle_exact. Qed.
+Check C12_reentry_detected_exactly : forall (q : qkey) (allow : bool) (hl : list qkey) (s : Salsa.Cycle.Model.cdb),
+  LockInv.LK hl s ->
+  (snd (Salsa.Cycle.Model.try_claim q allow s) = Salsa.Cycle.Model.COk (Salsa.Cycle.Model.ClCycle false) <-> In q hl).
+Print Assumptions C12_reentry_detected_exactly.
+
+(* ... and dropping the innermost guard in any release mode — default, self-only, or transfer to
+   a key with an open guard (the outer cycle head always is one: LockFetch.outer_cycle_ok) — never
+   panics ("new owner to be a locked query", "new owner should be blocked on `query`", missing
+   entry). *)
+Theorem C12_drop_guard_never_asserts : forall (q : qkey) (mode : Salsa.Cycle.Model.rmode) (hl : list qkey)
+    (s : Salsa.Cycle.Model.cdb),
+  LockInv.LK (q :: hl) s -> ~ In q (Salsa.Cycle.Model.c_qstack s) -> LockOps.mode_ok hl mode ->
+  forall p, snd (Salsa.Cycle.Model.drop_guard q mode s) <> Salsa.Cycle.Model.CPanic p.
+Proof. exact LockTop.drop_guard_never_panics. Qed.
+Check C12_drop_guard_never_asserts : forall (q : qkey) (mode : Salsa.Cycle.Model.rmode) (hl : list qkey)
+    (s : Salsa.Cycle.Model.cdb),
+  LockInv.LK (q :: hl) s -> ~ In q (Salsa.Cycle.Model.c_qstack s) -> LockOps.mode_ok hl mode ->
+  forall p, snd (Salsa.Cycle.Model.drop_guard q mode s) <> Salsa.Cycle.Model.CPanic p.
+Print Assumptions C12_drop_guard_never_asserts.
+
+(* GAP towards C12_fresh_full_statement / C13_fresh_full_statement (nested heads), precisely:
+   (1) the owner-chain invariant of [c_trans] (every entry (h, o): h reaches o in the call graph,
+       following owners ends at a key with an open guard; needs the exact semantics of
+       trans_unblock / trans_rewrite) — gives soundness of reused provisional memos: every head
+       they report still leads to the query stack, hence "a node that ends with cycle heads lies
+       on a cycle";
+   (2) completeness of collect_all_cycle_heads + outer_cycle (Tarjan's low-link argument): a node
+       that reaches the query stack reports a head on it, so a head without outer cycle closes its
+       whole strongly connected component — gives "a node on a cycle ends with cycle heads", the
+       certificate, and with it the values (fallback: immediate; fix: below kleene + equations);
+   (3) a termination measure over the metadata of all heads of the component.
+   The clause list validated by instrumented fuzzing (about 30k fresh runs, 0 violations) is in the
+   stage-6 report; Cycle/LockFetch.v is its first, closed layer.
+   Non-vacuity: the nested examples are instances (Cycle/LockExamples.v). *)
+Example C12_nested_runs_end_idle : forall ops,
+  Forall (fun r => r <> Salsa.Cycle.Model.CFuel)
+    (snd (Salsa.Cycle.Model.crun_ops FreshExamples.exn_prog Examples.ex_strat FreshExamples.cinit0 3 6
+            (Salsa.Cycle.Model.cinit_db FreshExamples.exf_iv (fun _ => 0)) ops)) ->
+  LockTop.idle (fst (Salsa.Cycle.Model.crun_ops FreshExamples.exn_prog Examples.ex_strat FreshExamples.cinit0 3 6
+            (Salsa.Cycle.Model.cinit_db FreshExamples.exf_iv (fun _ => 0)) ops)).
+Proof. exact LockExamples.exn_idle. Qed.
+
+
+(* ------------------------------------------------------------------------------------------
+   Cycle heads are SOUND — second closed layer of the nested-heads analysis (stage 9b; proofs in
+   Cycle/HeadInv.v, HeadOps.v, HeadFetch.v, HeadTop.v), again for ALL programs, strategies, nested
+   and overlapping cycles, all histories, values and panics alike; no c_trans reasoning needed.
+   [reach prog p d]: p can (transitively, in at least one step) call d in the static call graph
+   ([Core.Spec.calls], any answers).  Invariant carried through every level function: the open
+   claims form a chain of calls (so a re-entered key lies on a cycle), every recorded query edge
+   of a memo is a transitive callee (also after flattening), and every cycle head of a valued
+   memo / of a frame / of the closure computed by collect_all_cycle_heads is reachable from the
+   memo's key and lies on a cycle. *)
+From Salsa.Cycle Require HeadInv HeadOps HeadFetch HeadTop HeadExamples.
+
+Theorem C12_heads_sound : forall (prog : qkey -> body) (strat : N -> Salsa.Cycle.Model.strategy)
+    (cinit : qkey -> val) (nodes fuel : nat) (iv : ikey -> val) (idur : ikey -> dur)
+    (ops : list Salsa.Cycle.Model.cop),
+  let r := Salsa.Cycle.Model.crun_ops prog strat cinit nodes fuel (Salsa.Cycle.Model.cinit_db iv idur) ops in
+  Forall (fun o => o <> Salsa.Cycle.Model.CFuel) (snd r) ->
+  forall p m, Salsa.Cycle.Model.c_memo (fst r) p = Some m ->
+    (forall d, In (Salsa.Core.Model.EQ d) (Salsa.Cycle.Model.cm_edges m) -> HeadInv.reach prog p d) /\
+    (Salsa.Cycle.Model.cm_val m <> None -> forall h, In h (Salsa.Cycle.Model.raw_heads m) ->
+       (p = fst h \/ HeadInv.reach prog p (fst h)) /\ HeadInv.reach prog (fst h) (fst h)).
+Proof. exact HeadTop.heads_sound. Qed.
+Check C12_heads_sound : forall (prog : qkey -> body) (strat : N -> Salsa.Cycle.Model.strategy)
+    (cinit : qkey -> val) (nodes fuel : nat) (iv : ikey -> val) (idur : ikey -> dur)
+    (ops : list Salsa.Cycle.Model.cop),
+  let r := Salsa.Cycle.Model.crun_ops prog strat cinit nodes fuel (Salsa.Cycle.Model.cinit_db iv idur) ops in
+  Forall (fun o => o <> Salsa.Cycle.Model.CFuel) (snd r) ->
+  forall p m, Salsa.Cycle.Model.c_memo (fst r) p = Some m ->
+    (forall d, In (Salsa.Core.Model.EQ d) (Salsa.Cycle.Model.cm_edges m) -> HeadInv.reach prog p d) /\
+    (Salsa.Cycle.Model.cm_val m <> None -> forall h, In h (Salsa.Cycle.Model.raw_heads m) ->
+       (p = fst h \/ HeadInv.reach prog p (fst h)) /\ HeadInv.reach prog (fst h) (fst h)).
+Print Assumptions C12_heads_sound.
+
+(* Consequence (the soundness half of "exactly the cycle participants", C12/C13/C14, every
+   history): a function from which no cycle of the call graph can be reached never records a
+   cycle head — it is never a participant, never a head, never provisional, whatever happened. *)
+Theorem C12_acyclic_never_participates : forall (prog : qkey -> body) (strat : N -> Salsa.Cycle.Model.strategy)
+    (cinit : qkey -> val) (nodes fuel : nat) (iv : ikey -> val) (idur : ikey -> dur)
+    (ops : list Salsa.Cycle.Model.cop) (p : qkey),
+  (forall h, p = h \/ HeadInv.reach prog p h -> ~ HeadInv.reach prog h h) ->
+  let r := Salsa.Cycle.Model.crun_ops prog strat cinit nodes fuel (Salsa.Cycle.Model.cinit_db iv idur) ops in
+  Forall (fun o => o <> Salsa.Cycle.Model.CFuel) (snd r) ->
+  forall m, Salsa.Cycle.Model.c_memo (fst r) p = Some m -> Salsa.Cycle.Model.cm_val m <> None ->
+    Salsa.Cycle.Model.raw_heads m = [] /\ Salsa.Cycle.Model.heads_of m = [].
+Proof. exact HeadTop.no_cycle_no_heads. Qed.
+Check C12_acyclic_never_participates : forall (prog : qkey -> body) (strat : N -> Salsa.Cycle.Model.strategy)
+    (cinit : qkey -> val) (nodes fuel : nat) (iv : ikey -> val) (idur : ikey -> dur)
+    (ops : list Salsa.Cycle.Model.cop) (p : qkey),
+  (forall h, p = h \/ HeadInv.reach prog p h -> ~ HeadInv.reach prog h h) ->
+  let r := Salsa.Cycle.Model.crun_ops prog strat cinit nodes fuel (Salsa.Cycle.Model.cinit_db iv idur) ops in
+  Forall (fun o => o <> Salsa.Cycle.Model.CFuel) (snd r) ->
+  forall m, Salsa.Cycle.Model.c_memo (fst r) p = Some m -> Salsa.Cycle.Model.cm_val m <> None ->
+    Salsa.Cycle.Model.raw_heads m = [] /\ Salsa.Cycle.Model.heads_of m = [].
+Print Assumptions C12_acyclic_never_participates.
+
+(* A re-entered key lies on a cycle: inside any fetch, under the invariant, a same-thread cycle
+   report of try_claim implies that the requested key can reach itself. *)
+Theorem C12_reentered_key_is_cyclic : forall (prog : qkey -> body) (hl : list qkey) (q : qkey),
+  HeadInv.chn prog hl -> HeadInv.req prog hl q -> In q hl -> HeadInv.reach prog q q.
+Proof. exact HeadInv.reentry_cyc. Qed.
+Check C12_reentered_key_is_cyclic : forall (prog : qkey -> body) (hl : list qkey) (q : qkey),
+  HeadInv.chn prog hl -> HeadInv.req prog hl q -> In q hl -> HeadInv.reach prog q q.
+Print Assumptions C12_reentered_key_is_cyclic.
+
+(* Non-vacuity: exc_two_cycles and exn_nested record heads on the way (HeadExamples.exc_heads_recorded,
+   exn_heads_recorded, by vm_compute), all on cycles by the theorem. *)
+Example C12_two_cycles_heads_sound : forall ops,
+  Forall (fun r => r <> Salsa.Cycle.Model.CFuel) (snd (FbExamples.exc_run ops)) ->
+  forall p m, Salsa.Cycle.Model.c_memo (fst (FbExamples.exc_run ops)) p = Some m ->
+  Salsa.Cycle.Model.cm_val m <> None ->
+  forall h, In h (Salsa.Cycle.Model.raw_heads m) ->
+    (p = fst h \/ HeadInv.reach FbExamples.exc_prog p (fst h)) /\ HeadInv.reach FbExamples.exc_prog (fst h) (fst h).
+Proof. exact HeadExamples.exc_heads_sound. Qed.
